@@ -212,7 +212,10 @@ fn gen_body(r: &mut Rng, sc: &mut Scope, depth: usize, budget: &mut usize, calle
                 Node::For { pat, iter, body }
             }
             11 => {
-                let (expr, arms): (String, Vec<(String, Vec<(String, Ty)>)>) = match r.below(4) {
+                let (expr, arms): (String, Vec<(String, Vec<(String, Ty)>)>) = match r.below(7) {
+                    4 => (r.pick(&sc.of(Ty::I32)).to_string(), vec![(r.pick(&["0", "1", "7"]).to_string(), vec![]), (if r.chance(1, 2) { "k" } else { "_" }.to_string(), vec![("k".to_string(), Ty::I32)])]),
+                    5 => ("o".into(), vec![(r.pick(&["None", "Some(v)"]).to_string(), vec![("v".to_string(), Ty::Disp)]), ("_".into(), vec![])]),
+                    6 => (r.pick(&sc.of(Ty::Str)).to_string(), vec![(r.pick(&["\"a\"", "\"x\"", "\"\""]).to_string(), vec![]), (if r.chance(1, 2) { "other" } else { "_" }.to_string(), vec![("other".to_string(), Ty::Disp)])]),
                     0 => {
                         let mut a = vec![("Some(v)".to_string(), vec![("v".to_string(), Ty::Disp)]), ("None".to_string(), vec![])];
                         if r.chance(1, 2) {
@@ -225,8 +228,16 @@ fn gen_body(r: &mut Rng, sc: &mut Scope, depth: usize, budget: &mut usize, calle
                     _ => (r.pick(&sc.of(Ty::Str)).to_string(), vec![("\"a\"".into(), vec![]), ("\"\"".into(), vec![]), ("_".into(), vec![])]),
                 };
                 let mut out_arms = Vec::new();
-                for (p, binds) in arms {
-                    let body = with_vars(sc, binds, |sc| gen_body(r, sc, depth - 1, budget, callees));
+                let narms = arms.len();
+                // now and then exactly one arm has an empty body (first or last)
+                let empty_at = if r.chance(1, 3) { Some(if r.chance(1, 2) { 0 } else { narms - 1 }) } else { None };
+                for (ai, (p, binds)) in arms.into_iter().enumerate() {
+                    // a binding that the pattern does not introduce must not be used
+                    let binds: Vec<(String, Ty)> = binds.into_iter().filter(|(n, _)| p.contains(n.as_str())).collect();
+                    let mut body = if empty_at == Some(ai) { vec![] } else { with_vars(sc, binds, |sc| gen_body(r, sc, depth - 1, budget, callees)) };
+                    if empty_at.is_some() && empty_at != Some(ai) && body.is_empty() {
+                        body.push(Node::Text(format!("<arm{ai}>").into_bytes()));
+                    }
                     out_arms.push((p, body));
                 }
                 Node::Match { expr, arms: out_arms }
